@@ -17,12 +17,58 @@ def gen_events(ctx, res):
     return cases, events
 
 
+SCHEMA_OUTS = ["./gen/schema.d.ts", "./schema.generated.d.ts", "./out/deep/graphql.schema.d.ts", "./types/api.v2.types.d.mts", "./ops/s.d.ts",
+               "./out/x.y/schema.d.cts", "./gen/plain.ts"]
+
+
+def consumers(ctx):
+    """the consumers of the path functions: the schema module specifier of every generated declaration file and the `sources`
+    of every source map, from real CLI runs over output names with inner dots and output directories above / below / beside the inputs"""
+    import json
+    from props import c06
+    vlib.build_cli()
+    cases = []
+    for i in range(14 if ctx.quick else 140):
+        c = c06.make_case(ctx, i)
+        cfg = json.loads(c["configText"])
+        out = SCHEMA_OUTS[i % len(SCHEMA_OUTS)]
+        gen = cfg["extensions"]["nitrogql"]["generate"]
+        gen["schemaOutput"] = out
+        if out.endswith("plain.ts"):
+            gen["emitSchemaRuntime"] = False
+        gen["resolversOutput"] = ["./gen/resolvers.d.ts", "./out/r.v1.d.ts", "./resolvers.d.ts"][i % 3]
+        c["configText"] = json.dumps(cfg)
+        c["schemaOutRel"] = "/".join(x for x in out.split("/") if x not in (".", ""))
+        c["resolversOutRel"] = "/".join(x for x in gen["resolversOutput"].split("/") if x not in (".", ""))
+        c["want"] = {"resolvers": True, "maps": True}
+        c["id"] = "p%d" % i
+        cases.append(c)
+    vlib.write_ndjson(ctx.path("proj_cases.ndjson"), cases)
+    vlib.run_harness(["typegen", vlib.CLI_BIN, ctx.path("proj_cases.ndjson"), ctx.path("proj_events.ndjson"), ctx.path("proj"), "12"], timeout=3000)
+    evs = []
+    for e in vlib.read_ndjson(ctx.path("proj_events.ndjson")):
+        if e["exit"] != 0 or e["panicked"]:
+            raise vlib.ToolError("consumer project failed to generate: %s" % e["diag"][:400])
+        target = e["schemaOutRel"].split("/")
+        for x, o in zip(e["expect"]["ops"], e["opTs"]):
+            if o["k"] == "ok":
+                evs.append({"ev": "Specifier", "id": e["id"], "at": x["gen"], "spec": o["schemaImport"], "target": target})
+        if e["resolversTs"]["k"] == "ok":
+            evs.append({"ev": "Specifier", "id": e["id"], "at": e["resolversOutRel"].split("/"), "spec": e["resolversTs"]["schemaImport"], "target": target})
+        for m in e["maps"]:
+            if m["map"]["k"] == "ok":
+                evs.append({"ev": "Sources", "id": e["id"], "at": m["gen"], "sources": m["map"]["sources"], "inputs": [i["path"] for i in e["inputs"]]})
+    return evs
+
+
 def run(ctx, res):
     # design level: nitrogql's algorithm against the contract, all pairs to depth 4 (5 in thorough)
     mc = vlib.tlc("PathsAlgo", "MC_PathsAlgo.cfg" if ctx.quick else "MC_PathsAlgo_thorough.cfg",
                   workdir=ctx.work, workers=8, timeout=1500, xmx="6g")
     res.add_tlc(mc)
     cases, events = gen_events(ctx, res)
+    consumer_events = consumers(ctx)
+    events = events + consumer_events
     o = vlib.validate_trace("Trace_C20", "Trace_C20.cfg", events, workdir=ctx.work)
     res.add_trace(o)
     res.traces = o.events
@@ -32,8 +78,11 @@ def run(ctx, res):
     res.exhaustive = True
     res.rule = ("TLC enumerates every ordered pair of file paths over {x,y,.,..} to depth %d (Gen_C20); each pair is "
                 "driven through relative_path/normalize_path/resolve_relative_path and judged by Paths!RelContract in "
-                "Trace_C20; plus seeded random pairs to depth 7. Non-trivial = pair inside the property's domain "
-                "(PairInDomain)." % (4 if ctx.quick else 5))
+                "Trace_C20; plus seeded random pairs to depth 7. Consumers: %d events from real CLI runs (output names with inner dots, "
+                ".d.ts / .d.mts / .d.cts / .ts, output directories above / below / beside the inputs): the schema module specifier of every "
+                "operation and resolver declaration file must be relative and resolve to the schema declaration file after the documented "
+                "TS -> JS extension rewrite, and every `sources` entry of every source map must resolve to an input file. "
+                "Non-trivial = pair inside the property's domain (PairInDomain)." % (4 if ctx.quick else 5, len(consumer_events)))
     res.samples = [e for e in events[:400:57]]
     res.extra["mc_pathsalgo_distinct_states"] = mc.distinct
     res.extra["trace_action_coverage"] = o.coverage
